@@ -320,10 +320,10 @@ def _python_suites_evaluated(ctx, prj, py) -> bool:
     key = "Python.extract_blocks/indentation"
     if isinstance(g, str):
         key = "Python.extract_blocks/raises"
-    elif "two lines" in n or "one-line" in n:
-        key = "Python.extract_blocks/header-line"
-    elif isinstance(g, list) and isinstance(w, list) and len(g) == len(w) and all(a[0] == b[0] for a, b in zip(g, w)):
-        key = "Python.extract_blocks/exclusive-end"
+    elif "two lines" in n or "one-line" in n or (isinstance(g, list) and len(g) < len(w)):
+        key = "Python.extract_blocks/header-line"          # a function lost its suite (or took its header's own line into it)
+    elif isinstance(g, list) and len(g) == len(w) and all(a[0] == b[0] for a, b in zip(g, w)) and any(a[1] < b[1] for a, b in zip(g, w)):
+        key = "Python.extract_blocks/exclusive-end"        # same start, shorter: the last token falls outside
     ctx.viol("R4", key, py.site(), f"for the program '{n}' Python.extract_blocks {g if isinstance(g, str) else 'returns the token ranges ' + str(g)}; required {w} "
                                    f"(the lines after the header's last line indented strictly deeper than the header's first token, up to the first "
                                    f"line that is not, from the first token of the first to one past the last token of the last)"
